@@ -36,6 +36,16 @@ func (s S3IndexStore) GetIndexReader(name string) (r io.ReadCloser, e error) {
 	if err != nil {
 		return r, errors.Wrap(err, s.String())
 	}
+	// GetObject does not talk to the server yet. Ask for the object's metadata so
+	// that an index that does not exist is reported as such, and not as a failure
+	// of whatever reads from the object first.
+	if _, err := obj.Stat(); err != nil {
+		obj.Close()
+		if e, ok := err.(minio.ErrorResponse); ok && e.Code == "NoSuchKey" {
+			return r, NoSuchObject{name}
+		}
+		return r, errors.Wrap(err, s.String())
+	}
 	return obj, nil
 }
 
